@@ -110,8 +110,14 @@ class ODictAdapter:
             c["zz"] = 1          # the copy is independent
             assert "zz" not in d
         elif name == "Pickle":
-            c = pickle.loads(pickle.dumps(d, 2))
-            assert type(c) is self.cls
+            c = pickle.loads(pickle.dumps(d, args[0]))
+            assert type(c) is self.cls and c.keys() == d.keys() and len(c) == len(d)
+            res = {"t": "items", "v": _pairs(c.items())}
+            c["zz"] = 1
+            assert c.keys()[-1] == "zz" and "zz" not in d
+        elif name == "CopyModule":
+            c = copy.deepcopy(d) if args[0] else copy.copy(d)
+            assert type(c) is self.cls and c is not d and c.keys() == d.keys()
             res = {"t": "items", "v": _pairs(c.items())}
         elif name == "Clear":
             res = _none(_res_call(d.clear))
